@@ -17,12 +17,13 @@ RULE = ('(a) relations u(state, out\') from a formula menu over inputs of all '
         'table. (b) dumps_bdd_as_code: ALL 256 functions of 3 bits as roots '
         '(single, in pairs sharing nodes, with complemented edges on both '
         'back ends), Python text executed on all 8 inputs, C text '
-        'token-mapped to Python and executed likewise. evaluations = '
+        'token-mapped to Python and executed likewise, checked to be a sequence of well-formed C assignment statements, and compiled with g++ (latches declared from the text, out_bits a small map type) and run on all 8 inputs. evaluations = '
         'program executions; non-trivial = relation not functional or root '
         'not constant; distinct = (relation/root, outputs, back end)')
-ASSUMPTIONS = ['dd trusted', 'C output is executed after mapping ! && || '
-               'true false ; to Python tokens (stronger than a structural '
-               'check)']
+ASSUMPTIONS = ['dd trusted', 'C output is a fragment (no declarations): it '
+               'is wrapped in declarations derived from its own text before '
+               'compiling; if no C++ compiler is installed only the token '
+               'mapping and the statement grammar are checked (counted)']
 CASE_TIMEOUT = 120
 
 DECLS = {
@@ -297,6 +298,7 @@ def run_roots(case, acc):
     roots_list = [dict(out=u), dict(out=u, neg=~u),
                   dict(first=u, second=mk(g), third=mk(f & g))]
     n = 0
+    c_fragments = []
     for roots in roots_list:
         masks = {}
         for name, w in roots.items():
@@ -306,11 +308,14 @@ def run_roots(case, acc):
             code = cg.dumps_bdd_as_code(roots, bdd, lang=lang)
             pycode = code if lang == 'python' else _c_to_python(code)
             if lang == 'c':
-                # structural: every statement ends with ';', comments use //
-                bad = [ln for ln in code.splitlines()
-                       if ln.strip() and not ln.strip().startswith('//')
-                       and not ln.rstrip().endswith((';', '(', 'or', '||'))
-                       and not ln.rstrip().endswith('|| ')]
+                n += 1
+                why = _c_statements_malformed(code)
+                if why:
+                    acc.ev(n=n)
+                    acc.violation('emitted_c_code_malformed', case,
+                                  detail=dict(why=why, code=code[:800]))
+                    return
+                c_fragments.append((roots, masks, code))
             for r in space:
                 n += 1
                 ns = dict(zip(bits, r))
@@ -329,4 +334,126 @@ def run_roots(case, acc):
                                       detail=dict(lang=lang, root=name,
                                                   inputs=r, code=code[:800]))
                         return
+    # the C text, compiled by a real compiler and run on every input
+    res = _compile_and_run_c([c for _, _, c in c_fragments], bits)
+    if res is None:
+        acc.count('c_compiler_not_available')
+    elif isinstance(res, str):
+        acc.ev(n=n)
+        acc.violation('emitted_c_code_does_not_compile', case,
+                      detail=dict(compiler_says=res[:600],
+                                  code=c_fragments[0][2][:600]))
+        return
+    else:
+        acc.count('c_programs_compiled_and_run')
+        for k, (roots, masks, code) in enumerate(c_fragments):
+            for m, r in enumerate(space):
+                n += 1
+                for name in roots:
+                    if res.get((k, m, name)) != (r in masks[name]):
+                        acc.ev(n=n)
+                        acc.violation('emitted_code_wrong_value', case,
+                                      detail=dict(lang='c (compiled)',
+                                                  root=name, inputs=r,
+                                                  got=res.get((k, m, name)),
+                                                  code=code[:800]))
+                        return
     acc.ev(dict(c=case), nontrivial=f not in (0, 255), n=n)
+
+
+_C_EXPR_TOKEN = re.compile(
+    r'\s*(&&|\|\||!|\(|\)|true\b|false\b|[A-Za-z_]\w*)')
+
+
+def _c_statements_malformed(code):
+    """Why the text is not a sequence of C assignment statements, or None.
+
+    Comments are `// ...` lines; every statement is
+    `<latch> = <expr>;` or `out_bits["<name>"] = <expr>;` with <expr> built
+    from identifiers, true, false, !, &&, || and balanced parentheses."""
+    text = '\n'.join(ln for ln in code.splitlines()
+                     if not ln.strip().startswith('//'))
+    chunks = text.split(';')
+    if chunks[-1].strip():
+        return f'text after the last ";": {chunks[-1].strip()[:80]!r}'
+    for ch in chunks[:-1]:
+        m = re.match(r'\s*([A-Za-z_]\w*|out_bits\["\w+"\])\s*=(?!=)(.*)$',
+                     ch, re.S)
+        if not m:
+            return f'not an assignment: {ch.strip()[:80]!r}'
+        expr, pos, depth = m.group(2), 0, 0
+        while pos < len(expr):
+            if expr[pos:].strip() == '':
+                break
+            t = _C_EXPR_TOKEN.match(expr, pos)
+            if not t:
+                return f'unexpected text in expression: {expr[pos:pos+40]!r}'
+            depth += {'(': 1, ')': -1}.get(t.group(1), 0)
+            if depth < 0:
+                return 'unbalanced parentheses'
+            pos = t.end()
+        if depth:
+            return 'unbalanced parentheses'
+    return None
+
+
+_CXX = None
+
+
+def _compile_and_run_c(fragments, bits):
+    """Compile the emitted C fragments (g++; `out_bits` is a tiny map
+    type, latches are declared from the text) and run them on every input.
+
+    Returns {(fragment, input index, root name): value}, a compiler
+    message (str) if the text does not compile, or None without g++."""
+    global _CXX
+    import shutil
+    import subprocess
+    import tempfile
+    if _CXX is None:
+        _CXX = shutil.which('g++') or shutil.which('clang++') or False
+    if not _CXX:
+        return None
+    nb = len(bits)
+    src = ['extern "C" int printf(const char*, ...);',
+           'struct OB { bool v[16]; const char* k[16]; int n;',
+           '  bool& operator[](const char* s) {',
+           '    for (int i = 0; i < n; i++) { const char *a = k[i], *b = s;',
+           '      while (*a && *a == *b) { a++; b++; }',
+           '      if (*a == *b) return v[i]; }',
+           '    k[n] = s; v[n] = false; return v[n++]; } };',
+           'int main() {',
+           f'  for (int m = 0; m < {2 ** nb}; m++) {{']
+    for i, b in enumerate(bits):
+        src.append(f'    bool {b} = (m >> {nb - 1 - i}) & 1;')
+    for k, code in enumerate(fragments):
+        latches = sorted(set(re.findall(r'^\s*(latch_\w+)\s*=', code,
+                                        re.M)))
+        src.append('    {')
+        src.append('      OB out_bits; out_bits.n = 0;')
+        if latches:
+            src.append('      bool ' + ', '.join(latches) + ';')
+        src.append(code)
+        src.append('      for (int i = 0; i < out_bits.n; i++)')
+        src.append(f'        printf("{k} %d %s %d\\n", m, out_bits.k[i], '
+                   '(int) out_bits.v[i]);')
+        src.append('    }')
+    src.append('  }')
+    src.append('  return 0;')
+    src.append('}')
+    d = tempfile.mkdtemp(prefix='omega_c13_', dir='/var/tmp')
+    try:
+        with open(f'{d}/t.cpp', 'w') as fd:
+            fd.write('\n'.join(src))
+        p = subprocess.run([_CXX, '-w', '-O0', '-o', f'{d}/t', f'{d}/t.cpp'],
+                           capture_output=True, text=True)
+        if p.returncode:
+            return 'does not compile: ' + p.stderr[-500:]
+        out = subprocess.run([f'{d}/t'], capture_output=True, text=True)
+        res = {}
+        for ln in out.stdout.splitlines():
+            k, m, name, v = ln.split()
+            res[(int(k), int(m), name)] = bool(int(v))
+        return res
+    finally:
+        shutil.rmtree(d, ignore_errors=True)
